@@ -552,6 +552,28 @@ impl Exec {
                 }
                 Some(format!("id {}", id_num(id1)))
             }
+            "cachedp" => {
+                // handles on slices of ONE static string (same start address, different lengths): each is its own string
+                let b = unhex(t.get(1)?)?;
+                let k: usize = t.get(2)?.parse().ok()?;
+                let text = String::from_utf8(b).ok()?;
+                static BASES: std::sync::OnceLock<std::sync::Mutex<std::collections::HashMap<String, &'static str>>> = std::sync::OnceLock::new();
+                let base: &'static str = {
+                    let mut m = BASES.get_or_init(|| std::sync::Mutex::new(std::collections::HashMap::new())).lock().ok()?;
+                    *m.entry(text.clone()).or_insert_with(|| Box::leak(text.clone().into_boxed_str()))
+                };
+                if k > base.len() || !base.is_char_boundary(k) {
+                    return None;
+                }
+                let c = api::CachedInternedStringId::new(&base[..k]);
+                let id1 = c.load();
+                let id2 = c.load();
+                if id1 != id2 {
+                    return Some("cache-unstable".to_string());
+                }
+                self.api_ids.insert(id_num(id1), id1);
+                Some(format!("id {}", id_num(id1)))
+            }
             "cacheds" => {
                 // the same through a handle that lives for the whole process and is shared by every thread,
                 // as the `static`s a guest declares are
